@@ -177,10 +177,12 @@ def _coqname(key):
 
 
 class Block:
-    def __init__(self, src, params, opaque, nested, consts, loopvar=None, noop=()):
+    def __init__(self, src, params, opaque, nested, consts, loopvar=None, noop=(), value_calls=None, skip_assign=(), skip_if=()):
         self.src, self.params, self.opaque, self.nested = src, list(params), dict(opaque), dict(nested)
         self.consts, self.loopvar, self.noop = list(consts), loopvar, tuple(noop)
         self.env, self.ver, self.lets, self.read, self.defs, self.done = {}, {}, [], [], [], {}
+        self.sums, self.nres = [], 1
+        self.value_calls, self.skip_assign, self.skip_if = dict(value_calls or {}), tuple(skip_assign), tuple(skip_if)
 
     # ---- reads
     def lvalue(self, e):
@@ -262,6 +264,22 @@ class Block:
             return '(%s %s %s)' % (self.expr(e.left), op, self.expr(e.right))
         if isinstance(e, ast.Attribute) and _key(e) in ('np.pi', 'numpy.pi', 'math.pi'):
             return 'PI'
+        if isinstance(e, ast.Subscript) and _key(e.slice) in ('(slice(None,None,None),None)', ':,None', '(:,None)'):
+            return self.expr(e.value)          # x[:, None]: broadcasting only, the pointwise value is x's
+        if isinstance(e, ast.Call) and isinstance(e.func, ast.Attribute) and e.func.attr == 'ravel' and not e.args and not e.keywords:
+            return self.expr(e.func.value)     # x.ravel(): a view of the same values
+        if isinstance(e, ast.Call) and _key(e.func) in self.value_calls:
+            k = self.value_calls[_key(e.func)]  # a call whose VALUE is a parameter of the block (tied separately)
+            if k not in self.read:
+                self.read.append(k)
+            return _coqname(k)
+        if isinstance(e, ast.Call) and _key(e.func) in ('np.sum', 'numpy.sum', 'np.nansum') and len(e.args) == 1 \
+                and [(k.arg, _key(k.value)) for k in e.keywords] in ([('axis', '0')], []):
+            # a sum over the layer axis: the summand becomes its own definition (over the block's parameters), the sum
+            # itself a parameter of the main definition -- the lemma file instantiates it with the model's sum
+            body = ''.join('let %s := %s in\n    ' % l for l in self.lets) + self.expr(e.args[0])
+            self.sums.append(body)
+            return 'SUM%d' % len(self.sums)
         if isinstance(e, ast.Call) and not e.keywords:
             f = _key(e.func)
             if f in self.opaque:
@@ -308,6 +326,10 @@ class Block:
                 if (f.startswith('self.') and f.split('.')[-1] in LOGCALLS) or f in self.noop:
                     continue
                 raise TranslateError('call statement %s' % f)
+            if isinstance(st, ast.Assign) and len(st.targets) == 1 and _key(st.targets[0]) in self.skip_assign:
+                continue                     # declared: this name stays a parameter of the block
+            if isinstance(st, ast.If) and _key(st.test) in self.skip_if:
+                continue                     # declared: a branch the model treats separately
             if isinstance(st, ast.Assign) and len(st.targets) == 1 and self.lvalue(st.targets[0]):
                 v = st.value
                 if isinstance(v, ast.Call) and _key(v.func) in ('np.zeros', 'np.zeros_like', 'np.empty', 'np.empty_like'):
@@ -336,7 +358,11 @@ class Block:
                     return True
                 continue
             elif isinstance(st, ast.Return) and results is None:
-                self.result = self.expr(st.value)
+                if isinstance(st.value, ast.Tuple):
+                    self.result = '(' + ', '.join(self.expr(x) for x in st.value.elts) + ')'
+                    self.nres = len(st.value.elts)
+                else:
+                    self.result = self.expr(st.value)
                 return True
             else:
                 raise TranslateError('unsupported statement: %s' % ast.unparse(st)[:100])
@@ -355,7 +381,7 @@ def _find_method(tree, cls, method):
 
 
 def translate_block(path, cls, method, coq_name, params, results, start=None, loop=False, opaque=None, nested=(),
-                    consts=(), noop=()):
+                    consts=(), noop=(), inner=None, prelude=(), value_calls=None, skip_assign=(), skip_if=()):
     """-> Coq text. params / results: python l-value texts (`self.mean`, `H[i-1]`, `tau`), in the order of the generated
     definition's arguments / result tuple. start: begin at the first assignment to this name (statements before it are
     outside the block). loop: the block is the body of the method's single `for` loop. opaque: {call text: (coq function
@@ -372,6 +398,20 @@ def translate_block(path, cls, method, coq_name, params, results, start=None, lo
         if len(loops) != 1 or not isinstance(loops[0].target, ast.Name) or loops[0].orelse:
             raise TranslateError('%s.%s: expected exactly one for loop' % (cls, method))
         body, loopvar = loops[0].body, loops[0].target.id
+    pre = []
+    if inner is not None:
+        # the block is the body of a closure defined in the method; `prelude` names the enclosing assignments it uses
+        inn = [s for s in fn.body if isinstance(s, ast.FunctionDef) and s.name == inner]
+        if len(inn) != 1:
+            raise TranslateError('closure %s not found in %s.%s' % (inner, cls, method))
+        for st in fn.body:
+            if st is inn[0]:
+                break
+            if isinstance(st, ast.Assign) and len(st.targets) == 1 and _key(st.targets[0]) in prelude:
+                pre.append(st)
+        if sorted(_key(st.targets[0]) for st in pre) != sorted(prelude):
+            raise TranslateError('prelude assignments %s not found before %s' % (list(prelude), inner))
+        body = pre + inn[0].body
     nest = {s.name: s for s in fn.body if isinstance(s, ast.FunctionDef) and s.name in nested}
     if set(nest) != set(nested):
         raise TranslateError('nested functions %s not found in %s.%s' % (sorted(set(nested) - set(nest)), cls, method))
@@ -381,7 +421,7 @@ def translate_block(path, cls, method, coq_name, params, results, start=None, lo
             raise TranslateError('no assignment to %s in %s.%s' % (start, cls, method))
         body = body[idx[0]:]
     opaque = opaque or {}
-    b = Block(src, params, {k: v[0] for k, v in opaque.items()}, nest, consts, loopvar, noop)
+    b = Block(src, params, {k: v[0] for k, v in opaque.items()}, nest, consts, loopvar, noop, value_calls, skip_assign, skip_if)
     b.opaque_arity = {v[0]: v[1] for v in opaque.values()}
     b.stmts(body, results, stop=results[-1] if (results and not loop) else None)
     if results is None:
@@ -398,10 +438,14 @@ def translate_block(path, cls, method, coq_name, params, results, start=None, lo
     fparams = ''.join(' (%s : R -> R -> R)' % v[0] if v[1] == 2 else ' (%s : R -> R)' % v[0] for v in opaque.values())
     cparams = ''.join(' (%s : R)' % _name(c) for c in consts)
     res = b.env[results[0]] if len(results) == 1 else '(' + ', '.join(b.env[r] for r in results) + ')'
-    rty = ' * '.join(['R'] * len(results))
-    text = ''.join(b.defs) + 'Definition %s%s%s (%s : R) : %s :=\n    %s%s.\n' % (
-        coq_name, fparams, cparams, ' '.join(_coqname(p) for p in params), rty,
-        ''.join('let %s := %s in\n    ' % l for l in b.lets), res)
+    rty = ' * '.join(['R'] * (len(results) if results != ['<return>'] else b.nres))
+    plist = ' '.join(_coqname(p) for p in params)
+    text = ''.join(b.defs)
+    for k, body in enumerate(b.sums):
+        text += 'Definition %s_summand%d%s%s (%s : R) : R :=\n    %s.\n' % (coq_name, k + 1, fparams, cparams, plist, body)
+    sparams = ''.join(' (SUM%d : R)' % (k + 1) for k in range(len(b.sums)))
+    text += 'Definition %s%s%s%s (%s : R) : %s :=\n    %s%s.\n' % (
+        coq_name, fparams, cparams, sparams, plist, rty, ''.join('let %s := %s in\n    ' % l for l in b.lets), res)
     return text
 
 
